@@ -81,7 +81,7 @@ package encoder
 // writes nothing; if any Write fails - including the newline's - the error is returned.
 //@ func (*StreamEncoder).Encode props C17
 //@   requires enc != nil && enc.w != nil && $wlen >= 0 && sync.poolWF() && option.DefaultEncoderBufferSize <= 1099511627776
-//@   modifies $wlen, $wbuf, $wfail, $pooled
+//@   modifies $wlen, $wbuf, $wfail, $pooled, $bufarr
 //@   ensures !encOK(val, enc.Opts) ==> (err != nil && $wlen == old($wlen) && $wfail == old($wfail))
 //@   ensures (len(enc.indent) == 0 && len(enc.prefix) == 0 && err == nil) ==> $wlen == old($wlen) + len(encOut(val, enc.Opts)) + ite(enc.Opts & NoEncoderNewline == 0, 1, 0)
 //@   ensures (len(enc.indent) == 0 && len(enc.prefix) == 0 && err == nil) ==> (forall j int :: old($wlen) <= j && j < old($wlen) + len(encOut(val, enc.Opts)) ==> $wbuf[j] == encOut(val, enc.Opts)[j - old($wlen)])
